@@ -19,3 +19,4 @@ open GoRedis
 #print axioms C05_zrange_byscore
 #print axioms C05_zadd
 #print axioms C05_source_shapes_match_model
+#print axioms C05_source_ascii_case
